@@ -85,7 +85,7 @@ pub fn describe_wrapped(w: &r3::Wrapped) -> String {
 }
 
 pub fn run(ctx: &mut Ctx) {
-    let fams = dfam::build(ctx.quick());
+    let fams = dfam::build_depth(ctx.quick(), if ctx.quick() { 0 } else { 2 });
     let env = Env::new();
     let sel = dfam::Sel { tiny: true, shapes: true, big: true, sweep: true, shape_cfg_stride: if ctx.quick() { 7 } else { 1 } };
     dfam::for_each(ctx, &fams, sel, |ctx, it| {
@@ -100,7 +100,20 @@ pub fn run(ctx: &mut Ctx) {
                 if it.sched_idx != 0 {
                     c.nontrivial();
                 }
-                check_roundtrip(c, &env, it, &t)
+                check_roundtrip(c, &env, it, &t)?;
+                // the same history with the stream duplicated after the k-th call and carried on by the copy, and with
+                // the stream abandoned after the k-th call, reset and started over: what comes out round-trips too
+                if it.sched.tail_room != AMPLE && it.sched.tail_room >= 2 && t.calls.len() > 3 && (it.sched_idx + it.inp.data.len()) % 5 == 0 {
+                    for k in [1usize, 3] {
+                        c.exec();
+                        let tk = run_deflate::<Rs>(&it.cfg, &it.inp.data, it.sched, &env, &DExtra { copy_after_call: k, ..Default::default() }, None)?;
+                        check_roundtrip(c, &env, it, &tk).map_err(|e| format!("continued on a deflateCopy taken after call {k}: {e}"))?;
+                        c.exec();
+                        let tr = run_deflate::<Rs>(&it.cfg, &it.inp.data, it.sched, &env, &DExtra { reset_after_call: k, ..Default::default() }, None)?;
+                        check_roundtrip(c, &env, it, &tr).map_err(|e| format!("written after a deflateReset that followed call {k}: {e}"))?;
+                    }
+                }
+                Ok(())
             },
         );
     });
